@@ -172,9 +172,9 @@ PROPS = {
                            'monitors: order, reuse, amount <= N - accepted untaints on top of the running desired size.',
                 level_note=LEVEL_NOTE),
     'C08': dict(level='proof', module='EscProofs.P.C08',
-                streams=dict(quick=[('scenario', ['-dir', '@ROOT/corpus/C08']), ('hist', ['-n', 400, '-scans', 10, '-focus', 'ties']), ('hist', ['-n', 200, '-scans', 10, '-focus', 'faults'])],
-                             thorough=[('scenario', ['-dir', '@ROOT/corpus/C08']), ('hist', ['-n', 20000, '-scans', 12, '-focus', 'ties']), ('hist', ['-n', 10000, '-scans', 12, '-focus', 'faults'])],
-                             search=[('hist', ['-n', 1500, '-scans', 12, '-focus', 'faults']), ('hist', ['-n', 1500, '-scans', 12, '-focus', 'ties'])]),
+                streams=dict(quick=[('scenario', ['-dir', '@ROOT/corpus/C08']), ('hist', ['-n', 400, '-scans', 10, '-focus', 'ties']), ('hist', ['-n', 200, '-scans', 10, '-focus', 'faults']), ('hist', ['-n', 200, '-scans', 12, '-focus', 'dry'])],
+                             thorough=[('scenario', ['-dir', '@ROOT/corpus/C08']), ('hist', ['-n', 20000, '-scans', 12, '-focus', 'ties']), ('hist', ['-n', 10000, '-scans', 12, '-focus', 'faults']), ('hist', ['-n', 10000, '-scans', 12, '-focus', 'dry'])],
+                             search=[('hist', ['-n', 1500, '-scans', 12, '-focus', 'faults']), ('hist', ['-n', 1500, '-scans', 12, '-focus', 'ties']), ('hist', ['-n', 1500, '-scans', 12, '-focus', 'dry'])]),
                 aspects=['hist:taintadds', 'hist:gets'], monitors=['C08'],
                 theorems=['Esc.P.C08_oldest', 'Esc.P.C08_history', 'Esc.P.taintLoop_oldest', 'Esc.orderBy_pairwise', 'Esc.orderBy_perm', 'Esc.taintLoop_spec'],
                 technique='Lean 4 theorem (the visiting order is a sorted permutation whatever the sort does among ties; the taint loop attempts a prefix of it) + differential correspondence with the observed sort order validated per case + monitor',
